@@ -504,3 +504,105 @@ func timeSince(fr *frame, a []value) value {
 }
 
 var _ = fmt.Sprint
+
+// ---- reflect.DeepEqual on interpreter values
+
+func init() {
+	externals["reflect.DeepEqual"] = func(fr *frame, a []value) value {
+		x, y := a[0].(iface), a[1].(iface)
+		if x.t == nil || y.t == nil {
+			return x.t == nil && y.t == nil
+		}
+		if !types.Identical(x.t, y.t) {
+			return false
+		}
+		return deepEqual(x.t, x.v, y.v, map[[2]*value]bool{})
+	}
+}
+
+func deepEqual(t types.Type, x, y value, seen map[[2]*value]bool) bool {
+	if containsSym(x) || containsSym(y) {
+		panic(unsupported("reflect.DeepEqual on symbolic values"))
+	}
+	switch tt := t.Underlying().(type) {
+	case *types.Basic:
+		return equals(t, x, y)
+	case *types.Pointer:
+		px, py := x.(*value), y.(*value)
+		if px == nil || py == nil {
+			return px == py
+		}
+		if px == py {
+			return true
+		}
+		k := [2]*value{px, py}
+		if seen[k] {
+			return true
+		}
+		seen[k] = true
+		return deepEqual(tt.Elem(), *px, *py, seen)
+	case *types.Struct:
+		sx, sy := x.(structure), y.(structure)
+		for k := range sx {
+			if !deepEqual(tt.Field(k).Type(), sx[k], sy[k], seen) {
+				return false
+			}
+		}
+		return true
+	case *types.Array:
+		ax, ay := x.(array), y.(array)
+		for k := range ax {
+			if !deepEqual(tt.Elem(), ax[k], ay[k], seen) {
+				return false
+			}
+		}
+		return true
+	case *types.Slice:
+		sx, sy := x.([]value), y.([]value)
+		if (sx == nil) != (sy == nil) || len(sx) != len(sy) {
+			return false
+		}
+		for k := range sx {
+			if !deepEqual(tt.Elem(), sx[k], sy[k], seen) {
+				return false
+			}
+		}
+		return true
+	case *types.Interface:
+		ix, iy := x.(iface), y.(iface)
+		if ix.t == nil || iy.t == nil {
+			return ix.t == nil && iy.t == nil
+		}
+		if !types.Identical(ix.t, iy.t) {
+			return false
+		}
+		return deepEqual(ix.t, ix.v, iy.v, seen)
+	case *types.Map:
+		mx, my := x.(*hashmap), y.(*hashmap)
+		if (mx == nil) != (my == nil) || mx.len() != my.len() {
+			return false
+		}
+		for _, e := range mx.live() {
+			v := my.lookup(e.key)
+			if v == nil || !deepEqual(tt.Elem(), e.value, v, seen) {
+				return false
+			}
+		}
+		return true
+	case *types.Signature:
+		return isNilFunc(x) && isNilFunc(y)
+	case *types.Chan:
+		return x.(*channel) == y.(*channel)
+	}
+	panic(unsupported("reflect.DeepEqual on %s", t))
+}
+
+func isNilFunc(v value) bool {
+	switch f := v.(type) {
+	case *ssa.Function:
+		return f == nil
+	case *closure:
+		return f == nil
+	}
+	return false
+}
